@@ -150,17 +150,22 @@ Definition access_ok (st : site) : bool :=
   | _ => true
   end.
 
-(** name -> node and fidRef -> name RESOLUTION in the path tree ([pathNode.pathNodeFor], [pathNode.nameFor]): a rename
-    re-binds names to nodes holding only renameMu (for writing), so what a handler resolves -- the node it then
-    locks for a child, the name it hands to the backend -- is still what the tree says when the backend call runs
-    only if the resolution itself happens with renameMu held.  (Necessary, not sufficient: unlink and create
-    re-bind a name under the parent's opMu, which [call_ok] demands for the calls concerned.) *)
-Definition resolver (fn : string) : bool :=
-  String.eqb fn "pathNode.pathNodeFor" || String.eqb fn "pathNode.nameFor".
+(** name -> node and fidRef -> name RESOLUTION in the path tree: a rename re-binds names to nodes holding only
+    renameMu (for writing), so what a handler resolves -- the node it then locks for a child ([pathNodeFor] reads
+    [childNodes]), the name it hands to the backend ([nameFor]) -- is still what the tree says when the backend
+    call runs only if the resolution itself happens with renameMu held.  Stated on the MAP (every access to
+    [childNodes], whichever function makes it), and on [pathNode.nameFor] by name ([childRefNames] is also
+    touched by the release of a dying fidRef, which needs no stable name).  (Necessary, not sufficient: unlink
+    and create re-bind a name under the parent's opMu, which [call_ok] demands for the calls concerned.) *)
 Definition resolve_ok (st : site) : bool :=
-  if resolver (s_fn st) then has (s_held st) SRename else true.
+  match s_kind st with
+  | KAccess m _ _ => if String.eqb m "childNodes" || String.eqb (s_fn st) "pathNode.nameFor" then has (s_held st) SRename else true
+  | KAcq _ _ => if String.eqb (s_fn st) "pathNode.nameFor" then has (s_held st) SRename else true
+  | _ => true
+  end.
 (** ... and the table does contain resolutions (the obligation is not vacuous) *)
-Definition resolve_sites : nat := List.length (filter (fun st => resolver (s_fn st)) sites).
+Definition resolve_sites : nat :=
+  List.length (filter (fun st => match s_kind st with KAccess m _ _ => String.eqb m "childNodes" | _ => false end) sites).
 
 (** waiting for another goroutine (flush, stop) and dispatching a handler happen with nothing held *)
 Definition wait_ok (st : site) : bool :=
